@@ -68,7 +68,7 @@ def gen_enum(e):
         w('\te := %s(v)' % T)
         w('\ttxt, err := e.MarshalText()')
         w('\tverifAssert(err == nil, "C19/marshal-ok")')
-        w('\tvar d %s' % T)
+        w('\td := %s(verifNondetU64()) // the destination may hold anything before parsing' % T)
         w('\terr = d.UnmarshalText(txt)')
         w('\tverifAssert(err == nil, "C19/parse-ok")')
         w('\tverifAssert(d == e, "C19/round-trip")')
@@ -106,7 +106,7 @@ def gen_enum(e):
         w('\te := %s(v)' % T)
         w('\ttxt, err := e.MarshalText()')
         w('\tverifAssert(err == nil, "C19/marshal-ok")')
-        w('\tvar d %s' % T)
+        w('\td := %s(verifNondetU64()) // the destination may hold anything before parsing' % T)
         w('\terr = d.UnmarshalText(txt)')
         w('\tverifAssert(err == nil, "C19/bitmask-parse-ok")')
         w('\tif err == nil {')
